@@ -624,9 +624,70 @@ class Program:
             if callee.did is not None and callee.did in self.by_did:
                 out.append(self.by_did[callee.did])
             if cha:
-                out += self.trait_impl_methods(callee.trait, callee.name)
+                for m in self.trait_impl_methods(callee.trait, callee.name):
+                    if self.trait_args_compatible(callee, m):
+                        out.append(m)
             return out
         return []
+
+    def trait_args_compatible(self, callee, m):
+        """cheap unification of the call's trait generic arguments / Self with the impl's: concrete
+        outermost type constructors must agree (From<u64> never resolves to an impl of From<Foo>)"""
+        imp = self.impl_by_did.get(m.impl)
+        if imp is None:
+            return True
+        args = callee.args or []
+        tys = [a["t"] for a in args if "t" in a]
+        if not tys:
+            return True
+
+        def head(tix):
+            t = self.types[tix]
+            while t["k"] in ("ref", "ptr"):
+                t = self.types[t["t"]]
+            if t["k"] in ("adt",):
+                return t["path"]
+            if t["k"] in ("int", "bool", "str", "char", "float"):
+                return t["s"]
+            if t["k"] in ("slice", "array", "tuple"):
+                return t["k"]
+            return None
+        # Self
+        hs = head(tys[0])
+        hi = head(imp["self"])
+        if hs is not None and hi is not None and hs != hi:
+            return False
+        # trait generic args
+        tf = imp.get("trait_full", "")
+        if "<" in tf and len(tys) > 1:
+            inner = tf[tf.index("<") + 1:tf.rindex(">")]
+            parts = []
+            depth = 0
+            cur = ""
+            for ch in inner:
+                if ch in "<([":
+                    depth += 1
+                elif ch in ">)]":
+                    depth -= 1
+                if ch == "," and depth == 0:
+                    parts.append(cur.strip())
+                    cur = ""
+                else:
+                    cur += ch
+            if cur.strip():
+                parts.append(cur.strip())
+            parts = [x for x in parts if not x.startswith("'")]
+            for tix, part in zip(tys[1:], parts):
+                h = head(tix)
+                if h is None or h in ("slice", "array", "tuple"):
+                    continue
+                ph = part.lstrip("&").replace("mut ", "").replace("'a ", "").replace("'_ ", "").strip()
+                ph = ph.split("<")[0].strip()
+                if re.match(r"^[A-Z][A-Za-z0-9_]*$", ph):
+                    continue    # a type parameter of the impl
+                if ph and not ph.startswith("[") and not ph.startswith("(") and ph != h:
+                    return False
+        return True
 
     @property
     def callgraph(self):
